@@ -5,6 +5,7 @@ import ast
 
 import z3
 
+from .types import fresh  # noqa
 from .types import (BOOL, INT, NONE, REAL, TDict, TFun, TList, TMap, TObj, TOpt, TSet, TTuple, TU, T, V, set_mem,
                     dict_card, dict_dom, dict_val, fresh, list_arr, list_len, mk_dict, mk_list, mk_set, mk_tuple,
                     opt_is_none, opt_none, opt_some, opt_val, parse_type, set_card, set_mem, sort_of, tuple_get)
@@ -58,6 +59,8 @@ def coerce_to(v: V, t: T) -> V:
             return opt_none(t)
         if v.t == t.t or (t.t == REAL and v.t == INT):
             return opt_some(t, coerce_to(v, t.t).z)
+    if isinstance(t, TU) and t.uname == "opaque":
+        return fresh(t, "as_opaque")  # contents are not tracked behind an opaque type
     if isinstance(t, TTuple) and isinstance(v.t, TTuple) and len(t.items) == len(v.t.items):
         return mk_tuple(t, [coerce_to(tuple_get(v, i), it).z for i, it in enumerate(t.items)])
     if isinstance(t, TList) and isinstance(v.t, TList) and t.elem == REAL and v.t.elem == INT:
@@ -442,6 +445,10 @@ class Eval:
 
     def e_ListComp(self, n):
         return self.ex.listcomp(self, n)
+
+    def e_DictComp(self, n):
+        from .builtins import do_dictcomp
+        return do_dictcomp(self.ex, self, n)
 
     def e_SetComp(self, n):
         from .builtins import do_setcomp
